@@ -96,7 +96,9 @@ class DisciplineOracle(Oracle):
         for x in U:
             ok = True
             for y in U:
-                if y != x and self.rank[y] < self.rank[x] and not (x in rel and y in rel):
+                # a released item is always admissible: the statement only fixes that it goes ahead of the
+                # never-reserved items it preceded, and that never-reserved items keep their order
+                if y != x and self.rank[y] < self.rank[x] and x not in rel:
                     ok = False
                     break
             if ok:
@@ -104,6 +106,50 @@ class DisciplineOracle(Oracle):
         return out
 
     # -------------------------------------------------------------- hooks
+    def on_grants(self, h, toks):
+        """Several retrievals granted within one observation step: their relative order is not
+        observable here (C05 owns it), so every order is a possible world."""
+        import itertools
+        gets = [t for t in toks if t.side == "g"]
+        if self.dead or not gets:
+            return
+        self.observe(h)
+        if len(gets) == 1:
+            return self.on_grant(h, gets[0])
+        if len(gets) > 4:
+            self.dead = True
+            self.res.aborted = "c06_world_limit"
+            return
+        start = self.worlds
+        union = []
+        for perm in itertools.permutations(gets):
+            self.worlds = [(dict(b), dict(r)) for b, r in start]
+            ok = True
+            for t in perm:
+                self.on_grant(h, t)
+                if self.dead:
+                    ok = False
+                    break
+            if ok:
+                union.extend(self.worlds)
+            elif self.res.aborted == "c06_no_item_for_grant":
+                self.dead = False
+                self.res.aborted = None
+            else:
+                return
+        if not union:
+            self.dead = True
+            self.res.aborted = "c06_no_item_for_grant"
+            return
+        seen = set()
+        uniq = []
+        for b, r in union:
+            k = (tuple(sorted(b.items())), tuple(sorted(r.items())))
+            if k not in seen:
+                seen.add(k)
+                uniq.append((b, r))
+        self.worlds = uniq
+
     def on_grant(self, h, t):
         if self.dead or t.side != "g":
             return
